@@ -277,17 +277,30 @@ func emitFontLevel(b *bytes.Buffer, all []*pkgInfo) {
 			continue
 		}
 		for _, u := range p.units {
+			var stack []ast.Node
 			ast.Inspect(u.body, func(n ast.Node) bool {
+				if n == nil {
+					stack = stack[:len(stack)-1]
+					return true
+				}
 				if c, ok := n.(*ast.CallExpr); ok {
 					if f, ok := c.Fun.(*ast.SelectorExpr); ok && names[f.Sel.Name] {
-						cs = append(cs, fmt.Sprintf("⟨%s, %s, %s, .none⟩", q(p.name+"."+u.display), q(p.pos(c)), q(p.render(c.Fun))))
+						recv, _ := rootIdent(f.X)
+						rn, copyPos := "?", ""
+						if recv != nil {
+							rn = recv.Name
+							copyPos = p.privateCopyBefore(recv, append(append([]ast.Node{}, stack...), n))
+						}
+						cs = append(cs, fmt.Sprintf("{ fn := %s, pos := %s, call := %s, recv := %s, privateCopy := %v, copyPos := %s }",
+							q(p.name+"."+u.display), q(p.pos(c)), q(p.render(c.Fun)), q(rn), copyPos != "", q(copyPos)))
 					}
 				}
+				stack = append(stack, n)
 				return true
 			})
 		}
 	}
-	fmt.Fprintf(b, "/-- calls from canvas and its sub-packages to methods named like a dependency function that mutates\nfont-level state (container write outside a once body, or alias copy) -/\ndef fontMutatorCalls : List Site := [\n  %s]\n\n", strings.Join(cs, ",\n  "))
+	fmt.Fprintf(b, "/-- calls from canvas and its sub-packages to methods named like a dependency function that mutates\nfont-level state (container write outside a once body, or alias copy). privateCopy: a statement\n`if c, err := ….ParseSFNT(recv.Write(), …); err == nil { recv = c }` precedes the call in an enclosing\nblock of the same function, i.e. the receiver variable was rebound to a re-parsed copy (when the\nre-parse succeeds) -/\ndef fontMutatorCalls : List MutatorCall := [\n  %s]\n\n", strings.Join(cs, ",\n  "))
 	fmt.Fprintln(b, "end Canvas.FactsC20")
 }
 
@@ -304,4 +317,70 @@ func leanSitesRaw(l []site) string {
 		r = append(r, fmt.Sprintf("⟨%s, %s, %s, %s⟩", q(s.fn), q(s.pos), q(s.kind), sy))
 	}
 	return "[" + strings.Join(r, ", ") + "]"
+}
+
+// privateCopyBefore: position of a statement `if c, err := X.ParseSFNT(recv.Write(), …); err == nil { recv = c }`
+// that precedes the node (last element of stack) in one of its enclosing blocks; "" if none.
+func (p *pkgInfo) privateCopyBefore(recv *ast.Ident, stack []ast.Node) string {
+	same := func(e ast.Expr) bool {
+		id, ok := e.(*ast.Ident)
+		return ok && id.Name == recv.Name && id.Obj == recv.Obj
+	}
+	isCopy := func(s ast.Stmt) bool {
+		is, ok := s.(*ast.IfStmt)
+		if !ok || is.Init == nil {
+			return false
+		}
+		as, ok := is.Init.(*ast.AssignStmt)
+		if !ok || as.Tok != token.DEFINE || len(as.Lhs) != 2 || len(as.Rhs) != 1 {
+			return false
+		}
+		call, ok := as.Rhs[0].(*ast.CallExpr)
+		if !ok || len(call.Args) < 1 {
+			return false
+		}
+		if f, ok := call.Fun.(*ast.SelectorExpr); !ok || f.Sel.Name != "ParseSFNT" {
+			return false
+		}
+		w, ok := call.Args[0].(*ast.CallExpr)
+		if !ok {
+			return false
+		}
+		wf, ok := w.Fun.(*ast.SelectorExpr)
+		if !ok || wf.Sel.Name != "Write" || !same(wf.X) {
+			return false
+		}
+		cid, ok := as.Lhs[0].(*ast.Ident)
+		if !ok {
+			return false
+		}
+		// condition err == nil and body rebinding recv = c
+		be, ok := is.Cond.(*ast.BinaryExpr)
+		if !ok || be.Op != token.EQL {
+			return false
+		}
+		for _, st := range is.Body.List {
+			if a, ok := st.(*ast.AssignStmt); ok && a.Tok == token.ASSIGN && len(a.Lhs) == 1 && len(a.Rhs) == 1 && same(a.Lhs[0]) {
+				if r, ok := a.Rhs[0].(*ast.Ident); ok && r.Name == cid.Name {
+					return true
+				}
+			}
+		}
+		return false
+	}
+	for k := 0; k+1 < len(stack); k++ {
+		list := stmtList(stack[k])
+		if list == nil {
+			continue
+		}
+		for _, s := range list {
+			if ast.Node(s) == stack[k+1] {
+				break
+			}
+			if isCopy(s) {
+				return p.pos(s)
+			}
+		}
+	}
+	return ""
 }
